@@ -8,6 +8,7 @@
 -/
 import ClairModel.Proofs.TarSeg
 import ClairModel.Proofs.RpmHeader
+import ClairModel.Proofs.RpmDb
 import ClairModel.Gen.Tar
 
 namespace ClairModel.Props.C06
@@ -154,5 +155,67 @@ theorem load_panics_typechecked_counterexample :
 theorem load_rejects_witnesses :
     RpmHeader.run nameInt32Header = .loadErr ∧ RpmHeader.run nameStrArrayHeader = .loadErr := by
   decide +kernel
+
+/-! ## rpm/bdb and rpm/ndb walkers -/
+
+/-- bdb: `Parse` + `AllHeaders` (definitions Lean accepts without fuel) link at
+    most one overflow page per page of the file into the headers they hand out:
+    every chain hop marks a page that was not marked before, so the walk is
+    linear in the file whatever the page links say. -/
+theorem bdb_walk_linear (file : RpmDb.Bytes) (rs : List RpmDb.Rope)
+    (h : RpmDb.Bdb.allHeaders file = some (some rs)) : RpmDb.hops rs ≤ file.length / 512 + 1 := by
+  unfold RpmDb.Bdb.allHeaders at h
+  split at h; · cases h
+  rename_i db hp
+  obtain ⟨hps, hfile⟩ := RpmDb.Bdb.parse_pageSz file db hp
+  split at h
+  · injection h with h
+    have := RpmDb.Bdb.pages_count db 0 _ [] _ rs h
+    rw [RpmDb.Bdb.count_replicate_false] at this
+    simp only [RpmDb.hops_nil, Nat.zero_add, RpmDb.Bdb.pageBound, hfile] at this
+    have : file.length / db.pageSz ≤ file.length / 512 := Nat.div_le_div_left hps (by decide)
+    omega
+  · injection h with h; cases h
+
+/-- A three-page database whose page 2 is not an overflow page. -/
+def bdbStuckWitness : RpmDb.Bytes :=
+  List.replicate 12 0 ++ [0x61, 0x15, 0x06, 0x00] ++ List.replicate 4 0 ++ [0, 2, 0, 0] ++ [0, 8] ++
+  List.replicate 6 0 ++ [2, 0, 0, 0] ++ List.replicate 476 0 ++
+  List.replicate 512 0 ++
+  List.replicate 25 0 ++ [9] ++ List.replicate 486 0
+
+/-- ... and one whose page 2 is an overflow page that names itself as the next page. -/
+def bdbCycleWitness : RpmDb.Bytes :=
+  List.replicate 12 0 ++ [0x61, 0x15, 0x06, 0x00] ++ List.replicate 4 0 ++ [0, 2, 0, 0] ++ [0, 8] ++
+  List.replicate 6 0 ++ [2, 0, 0, 0] ++ List.replicate 476 0 ++
+  List.replicate 512 0 ++
+  List.replicate 16 0 ++ [2, 0, 0, 0] ++ List.replicate 5 0 ++ [7] ++ List.replicate 486 0
+
+/-- Before the fix (`fixed:` ef45a299) the chain loop did not move on either:
+    on the first the loop variable stays 2 (`continue`), on the second it stays 2
+    and a section is appended on every turn (unbounded memory). -/
+theorem bdb_chain_loops_counterexample :
+    (RpmDb.Bdb.parse bdbStuckWitness).map (fun db => RpmDb.Bdb.chainIterUnfixed db 2) = some (some (2, false)) ∧
+    (RpmDb.Bdb.parse bdbCycleWitness).map (fun db => RpmDb.Bdb.chainIterUnfixed db 2) = some (some (2, true)) := by
+  decide +kernel
+
+/-- ndb: every slot `Parse` keeps was read from inside the file, so there are
+    at most (size − 32) / 16 of them. -/
+theorem ndb_slots_within_file (file : RpmDb.Bytes) (ss : List RpmDb.Ndb.Slot)
+    (h : RpmDb.Ndb.parse file = some ss) : ss.length * 16 + 32 ≤ file.length := by
+  unfold RpmDb.Ndb.parse at h
+  split at h; · cases h
+  split at h; · cases h
+  split at h; · cases h
+  have := RpmDb.Ndb.slots_len file _ _ 32 [] ss h (by omega)
+  simp only [List.length_nil] at this
+  omega
+
+/-- ndb: a header is only handed out for a blob that lies inside the file
+    (start, declared block count and trailer all read successfully). -/
+theorem ndb_blob_within_file (file : RpmDb.Bytes) (s : RpmDb.Ndb.Slot) (id : Nat) (sec : RpmDb.Section)
+    (h : RpmDb.Ndb.getHeader file s id = some sec) :
+    s.blkOffset * 16 + s.blkCount * 16 ≤ file.length ∧ sec.start = s.blkOffset * 16 + 16 ∧ sec.start ≤ file.length :=
+  RpmDb.Ndb.getHeader_within file s id sec h
 
 end ClairModel.Props.C06
